@@ -17,6 +17,27 @@ Definition tp_rr_excs (r : tp_rround) : list (list tp_seg) := snd r.
 Definition tp_roll_start (upd : Z -> Z -> list tp_seg) (prefer : bool) (r : tp_rround) : tp_st :=
   tp_update_region true upd prefer (tp_rr_incs r) (tp_rr_excs r) (tp_rr_now r) (tp_rr_now r + 86400) true tp_empty.
 
+(* Start() as an operation on the state it FINDS.  After a restart of the daemon that is not the empty state: segments, valid_begin
+   and valid_end are state attributes, ConfigObject::RestoreObjects puts the values of the previous run into the new object
+   (Deserialize(.., FAState)) before it is activated - and the new object may have been built from an edited definition.
+   As coded: UpdateRegion(now, now + 24 h, true), clearExisting = true unconditionally - the restored segments are dropped
+   ("SetSegments(new Array())"), valid_begin / valid_end are NOT.
+   [rw] = the form with repo_patches/C08-start-resets-window.diff: valid_begin / valid_end are emptied first, so what Start() works on
+   is the empty state whatever was restored. *)
+Definition tp_roll_start_on (rw : bool) (upd : Z -> Z -> list tp_seg) (prefer : bool) (r : tp_rround) (s : tp_st) : tp_st :=
+  tp_update_region true upd prefer (tp_rr_incs r) (tp_rr_excs r) (tp_rr_now r) (tp_rr_now r + 86400) true (if rw then tp_empty else s).
+
+(* NOT the code - the tempting variant "segments restored from the state file already have everything applied; while they still cover
+   the present they are only extended": clearExisting = false when valid_begin <= now < valid_end was restored *)
+Definition tp_start_restored (now : Z) (s : tp_st) : bool :=
+  match tp_vb s, tp_ve s with
+  | Some vb, Some ve => (vb <=? now) && (now <? ve)
+  | _, _ => false
+  end.
+Definition tp_roll_start_keep (upd : Z -> Z -> list tp_seg) (prefer : bool) (r : tp_rround) (s : tp_st) : tp_st :=
+  tp_update_region true upd prefer (tp_rr_incs r) (tp_rr_excs r) (tp_rr_now r) (tp_rr_now r + 86400)
+    (negb (tp_start_restored (tp_rr_now r) s)) s.
+
 (* [ma]: the form of UpdateRegion (Tp/TpModel.v tp_update_region_ma) *)
 Definition tp_roll_round (ma : bool) (upd : Z -> Z -> list tp_seg) (prefer : bool) (r : tp_rround) (s : tp_st) : tp_st :=
   let s1 := tp_purge (tp_rr_now r - 3600) s in
@@ -35,6 +56,10 @@ Definition tp_roll_step (ma : bool) (upd : Z -> Z -> list tp_seg) (prefer : bool
 
 Definition tp_roll (ma : bool) (upd : Z -> Z -> list tp_seg) (prefer : bool) (r0 : tp_rround) (rs : list tp_rround) : tp_roll_acc :=
   fold_left (tp_roll_step ma upd prefer) rs (tp_roll_start upd prefer r0, r0).
+
+(* the run after a restart: Start() on the restored state [s], then timer rounds *)
+Definition tp_roll_on (rw ma : bool) (upd : Z -> Z -> list tp_seg) (prefer : bool) (s : tp_st) (r0 : tp_rround) (rs : list tp_rround) : tp_roll_acc :=
+  fold_left (tp_roll_step ma upd prefer) rs (tp_roll_start_on rw upd prefer r0 s, r0).
 
 (* ---------------- what is asked of the surroundings ---------------- *)
 
